@@ -25,7 +25,12 @@ from harness.vlib.util import f2b, b2f, fs, close, call
 
 DEG = math.pi / 180.0
 SPECIES_POOL = [('deuterium', 1), ('carbon', 6), ('helium', 2), ('neon', 10), ('carbon', 5), ('hydrogen', 1),
-                ('tritium', 1), ('beryllium', 4), ('deuterium', 0), ('helium', 1), ('nitrogen', 7), ('argon', 16)]
+                ('tritium', 1), ('beryllium', 4), ('deuterium', 0), ('helium', 1), ('nitrogen', 7), ('argon', 16),
+                ('helium3', 2), ('helium4', 2), ('carbon13', 6)]
+# isotopes of one element in the same charge state: the provider below serves a different rate for each of them
+ISOTOPE_GROUPS = [[('hydrogen', 1), ('deuterium', 1), ('tritium', 1)], [('helium', 2), ('helium3', 2), ('helium4', 2)],
+                  [('carbon', 6), ('carbon13', 6)], [('deuterium', 0), ('tritium', 0), ('hydrogen', 0)]]
+FORMS = ['plain', 'late', 'keywords', 'replaced', 'swap-back', 'junk-model', 'second-beam']
 BEAM_ELEMENTS = ['hydrogen', 'deuterium', 'tritium', 'helium', 'helium3', 'lithium']
 
 
@@ -76,8 +81,15 @@ def gen_case(rng, mode=None):
     kind = rng.choice(['uniform', 'smooth', 'smooth', 'smooth', 'cut'])
     nsp = rng.choice([1, 2, 2, 3, 4])
     pool = rng.sample(SPECIES_POOL, nsp)
+    if mode == 'isotopes' or rng.random() < 0.15:
+        grp = rng.choice(ISOTOPE_GROUPS[:3] if rng.random() < 0.9 else ISOTOPE_GROUPS)
+        iso = rng.sample(grp, rng.randint(2, len(grp)))
+        pool = [p_ for p_ in pool if p_ not in iso][:max(0, 4 - len(iso))]
+        for p_ in iso:
+            pool.insert(rng.randint(0, len(pool)), p_)
+        mode = None if mode == 'isotopes' else mode
     if all(z == 0 for _, z in pool):
-        pool[0] = ('deuterium', 1)
+        pool[0] = ('deuterium', 1) if ('deuterium', 1) not in pool else ('carbon', 6)
     species = []
     for el, z in pool:
         species.append(dict(
@@ -121,20 +133,31 @@ class Scene:
     pass
 
 
-def build(case):
-    """fresh world + plasma + beam for `case`; nothing is observed here"""
-    from raysect.core import World, Node, Vector3D, Point3D, translate, rotate
-    from raysect.primitive import Sphere
-    from cherab.core import Beam, Plasma, Species, Maxwellian
-    from cherab.core.atomic import AtomicData, BeamStoppingRate, elements
-    from cherab.core.model import SingleRayAttenuator
-    from cherab.core.math import ConstantVector3D
+def make_species(sc, species):
+    """real Species objects for the JSON description; the density of the first one records where it is sampled"""
+    from raysect.core import Vector3D
+    from cherab.core import Species, Maxwellian
+    from cherab.core.atomic import elements
+    comp = []
+    first = True
+    for s in species:
+        dens, temp, vel = scalar_profile(s['dens']), scalar_profile(s['temp']), vector_profile(s['vel'])
+        if first:
+            def dens(x, y, z, _d=dens):
+                sc.points.append((x, y, z))
+                return _d(x, y, z)
+            first = False
+        el = getattr(elements, s['element'])
+        comp.append(Species(el, s['charge'],
+                            Maxwellian(dens, temp, lambda x, y, z, _v=vel: Vector3D(*_v(x, y, z)),
+                                       el.atomic_weight * atomic_mass)))
+    return comp
 
-    sc = Scene()
-    sc.case = case
-    sc.points = []          # points at which species 0's density was sampled (plasma space)
-    sc.rates = []           # Rate objects in the order the attenuator requested them (= composition order)
-    sc.bad_beam_ion = []
+
+def make_data(sc):
+    """mock AtomicData: a distinct rate function per (plasma element *or isotope*, charge), looked up in the scene's
+    *current* description at request time; every request is recorded"""
+    from cherab.core.atomic import AtomicData, BeamStoppingRate
 
     class Rate(BeamStoppingRate):
         def __init__(self, key, f):
@@ -146,66 +169,158 @@ def build(case):
             self.calls.append((e, n, t))
             return self.f(e, n, t)
 
-    params = {(s['element'], s['charge']): s['rate'] for s in case['species']}
-
     class Data(AtomicData):
         def beam_stopping_rate(self, beam_ion, plasma_ion, charge):
             key = (plasma_ion.name, charge)
+            params = {(s['element'], s['charge']): s['rate'] for s in sc.cur['species']}
             c, a, b = params.get(key, (1e-9, 0.0, 0.0))
-            if beam_ion.name != case['element']:
+            if beam_ion.name != sc.cur['element']:
                 sc.bad_beam_ion.append(beam_ion.name)
                 c = c * 1e3 + 1e-10
             r = Rate(key, rate_fn(c, a, b))
             sc.rates.append(r)
             return r
+    return Data()
+
+
+def make_attenuator(case, **kw):
+    from cherab.core.model import SingleRayAttenuator
+    return SingleRayAttenuator(step=case['step'], clamp_to_zero=case['clamp'], clamp_sigma=case['clamp_sigma'], **kw)
+
+
+def build(case, form='plain'):
+    """fresh world + plasma + beam for `case`, attenuator constructed / attached in one of the documented ways (FORMS);
+    forms with a history (replaced / swapped / discarded objects) observe the density on the way"""
+    import gc
+    from raysect.core import World, Node, Vector3D, Point3D, translate, rotate
+    from raysect.primitive import Sphere
+    from cherab.core import Beam, Plasma, Maxwellian
+    from cherab.core.atomic import elements
+    from cherab.core.math import ConstantVector3D
+
+    sc = Scene()
+    sc.case = case
+    sc.cur = json.loads(json.dumps(case))      # current description (mutated by histories)
+    sc.form = form
+    sc.points = []          # points at which species 0's density was sampled (plasma space)
+    sc.rates = []           # Rate objects in the order the attenuator requested them (= composition order)
+    sc.bad_beam_ion = []
 
     world = World()
     pt = case['plasma_tf']
     plasma = Plasma(parent=world, transform=translate(*pt[:3]) * rotate(*pt[3:]))
     plasma.geometry = Sphere(50.0)
     plasma.b_field = ConstantVector3D(Vector3D(0, 0, 1))
-    comp = []
-    first = True
-    for s in case['species']:
-        dens, temp, vel = scalar_profile(s['dens']), scalar_profile(s['temp']), vector_profile(s['vel'])
-        if first:
-            def dens(x, y, z, _d=dens):
-                sc.points.append((x, y, z))
-                return _d(x, y, z)
-            first = False
-        el = getattr(elements, s['element'])
-        comp.append(Species(el, s['charge'],
-                            Maxwellian(dens, temp, lambda x, y, z, _v=vel: Vector3D(*_v(x, y, z)),
-                                       el.atomic_weight * atomic_mass)))
     plasma.electron_distribution = Maxwellian(lambda x, y, z: 1e19, lambda x, y, z: 1e3,
                                               lambda x, y, z: Vector3D(0, 0, 0), electron_mass)
-    plasma.composition = comp
-    data = Data()
+    plasma.composition = make_species(sc, case['species'])
+    data = make_data(sc)
     plasma.atomic_data = data
+
+    def set_beam_parameters(b):
+        b.energy = case['energy']
+        b.power = case['power']
+        b.element = getattr(elements, case['element'])
+        b.sigma = case['sigma']
+        b.divergence_x = case['divx']
+        b.divergence_y = case['divy']
+        b.length = case['length']
 
     bt = case['beam_tf']
     parent = world
     if case['nested']:
         parent = Node(parent=world, transform=translate(0.3, -0.2, 0.1) * rotate(25, -40, 10))
+    if form == 'second-beam':
+        # an earlier beam on the same plasma, observed and then discarded: its attenuator's dead entry stays in
+        # plasma.notifier in front of whatever registers next
+        other = Beam(parent=world, transform=translate(0.1, 0.2, -0.3))
+        other.atomic_data = data
+        other.plasma = plasma
+        other.attenuator = make_attenuator(case)
+        set_beam_parameters(other)
+        other.density(0.0, 0.0, 0.5 * case['length'])
+        other.parent = None
+        del other
+        gc.collect()
     beam = Beam(parent=parent, transform=translate(*bt[:3]) * rotate(*bt[3:]))
     beam.atomic_data = data
     beam.plasma = plasma
-    att = SingleRayAttenuator(step=case['step'], clamp_to_zero=case['clamp'], clamp_sigma=case['clamp_sigma'])
-    beam.attenuator = att
-    beam.energy = case['energy']
-    beam.power = case['power']
-    beam.element = getattr(elements, case['element'])
-    beam.sigma = case['sigma']
-    beam.divergence_x = case['divx']
-    beam.divergence_y = case['divy']
-    beam.length = case['length']
-    sc.world, sc.plasma, sc.beam, sc.att = world, plasma, beam, att
-    sc.mass = beam.element.atomic_weight
-    sc.b2p = beam.to(plasma)
-    d = Vector3D(0, 0, 1).transform(sc.b2p)
-    sc.dir = (d.x, d.y, d.z)
-    sc.Point3D = Point3D
+    if form in ('plain', 'second-beam'):
+        att = make_attenuator(case)
+        beam.attenuator = att
+        set_beam_parameters(beam)
+    elif form == 'late':
+        set_beam_parameters(beam)
+        att = make_attenuator(case)
+        beam.attenuator = att
+    elif form == 'keywords':
+        # documented keyword form, with the very objects the attenuator is then attached to
+        set_beam_parameters(beam)
+        att = make_attenuator(case, beam=beam, plasma=plasma, atomic_data=data)
+        beam.attenuator = att
+    elif form == 'replaced':
+        from cherab.core.model import SingleRayAttenuator
+        set_beam_parameters(beam)
+        old = SingleRayAttenuator(step=case['step'] * 2.5)
+        beam.attenuator = old
+        beam.density(0.0, 0.0, 0.5 * case['length'])
+        att = make_attenuator(case)
+        beam.attenuator = att
+        del old
+        gc.collect()
+    elif form == 'swap-back':
+        from cherab.core.model import SingleRayAttenuator
+        att = make_attenuator(case)
+        beam.attenuator = att
+        set_beam_parameters(beam)
+        beam.density(0.0, 0.0, 0.5 * case['length'])
+        tmp = SingleRayAttenuator(step=case['step'] * 1.7, clamp_to_zero=not case['clamp'])
+        beam.attenuator = tmp
+        beam.density(0.0, 0.0, 0.25 * case['length'])
+        beam.attenuator = att
+        del tmp
+        gc.collect()
+    elif form == 'junk-model':
+        from cherab.core.beam import BeamModel
+        from cherab.core.model import SingleRayAttenuator
+
+        class Dummy(BeamModel):
+            def emission(self, beam_point, plasma_point, beam_direction, observation_direction, spectrum):
+                return spectrum
+        set_beam_parameters(beam)
+        old = SingleRayAttenuator(step=case['step'] * 3.0)
+        beam.attenuator = old
+        beam.models = [Dummy(), Dummy()]
+        beam.density(0.0, 0.0, 0.5 * case['length'])
+        beam.models = []
+        gc.collect()
+        att = make_attenuator(case)
+        beam.attenuator = att
+        del old
+        gc.collect()
+    else:
+        raise ValueError(form)
+    sc.world, sc.plasma, sc.beam, sc.att, sc.data = world, plasma, beam, att, data
+    sc.points.clear()
+    del sc.rates[:]
+    finish_scene(sc, case)
     return sc
+
+
+def finish_scene(sc, case, geometry_from=None):
+    """quantities the oracles need, derived from the description (for a scene with a history: from a *fresh* reference
+    scene of the same description, never from the objects under test)"""
+    from raysect.core import Vector3D, Point3D
+    from cherab.core.atomic import elements
+    sc.case = case
+    sc.mass = getattr(elements, case['element']).atomic_weight
+    if geometry_from is None:
+        sc.b2p = sc.beam.to(sc.plasma)
+        d = Vector3D(0, 0, 1).transform(sc.b2p)
+        sc.dir = (d.x, d.y, d.z)
+    else:
+        sc.b2p, sc.dir = geometry_from.b2p, geometry_from.dir
+    sc.Point3D = Point3D
 
 
 def axis_point(sc, z):
